@@ -9,7 +9,9 @@ from drivers.calcgen import Prog, world_tables, MODES
 from checks import unitscheck
 
 UNITS_MENUS = {
-    'quick': [('exist', ['tA', 'tB', 'tAB', 'tA2', 'tBi', 'ka', 'cb', 'm_ka_b', 'm_b_ka', 'm_ka_ka', 'm_ka_cb',
+    'quick': [('cube', ['tA', 'tA3', 'tA2', 'ka', 'p_ka_3', 'p_ka_2', 'm_ka_ka'], 6),
+              ('noref', ['tA', 'tM', 'tMpA', 'p', 'q', 'ppa', 'qpa', 'd_ppa_qpa', 'm_ppa_a'], 8),
+              ('exist', ['tA', 'tB', 'tAB', 'tA2', 'tBi', 'ka', 'cb', 'm_ka_b', 'm_b_ka', 'm_ka_ka', 'm_ka_cb',
                          'm_b_bi', 'd_ka_b', 'd_a2_ka', 'p_ka_2', 'p_ka_m1', 'p_ka_3', 'p_a_0'], 5)],
     'thorough': [('exist', ['tA', 'tB', 'tAB', 'tA2', 'tBi', 'tApB', 'ka', 'cb', 'ha', 'm_ka_b', 'm_b_ka', 'm_ka_ka',
                             'm_ka_cb', 'm_b_bi', 'm_a_ha', 'd_ka_b', 'd_a2_ka', 'd_ka_ha', 'p_ka_2', 'p_ka_m1',
